@@ -9,6 +9,8 @@
        set again, the tlang cleared and set again, the tags cleared and added again (reverse order)
     6  language / script / region re-assigned from the parse of their own text
     7+ from_parts with the variants reversed and duplicated
+   10  (requested by that number; the driver and the harness take it before the `7+` rule) route 5 in which every keyword is
+       set again with an extra `true` after its values and every tfield with an extra `true` before them: `true` is not stored
 -/
 import UnicLocale.Model.Ops
 
@@ -19,6 +21,17 @@ def route5Ops (x : Locale) : List Op :=
   u.attributes.map .removeAttribute ++ u.attributes.reverse.map .setAttribute ++
   (u.keywords.reverse.map fun kv => [Op.removeKeyword kv.1, Op.setKeyword kv.1 kv.2]).flatten ++
   (x.ext.transform.tfields.reverse.map fun kv => [Op.removeTField kv.1, Op.setTField kv.1 kv.2]).flatten ++
+  (match x.ext.transform.tlang with
+    | some tl => [Op.clearTLang, Op.setTLang tl.display]
+    | none => []) ++
+  [Op.clearTags] ++ x.ext.priv.reverse.map .addTag
+
+/-- route 10: route 5 with a `true` value added to every list that is set again -/
+def route10Ops (x : Locale) : List Op :=
+  let u := x.ext.unicode
+  u.attributes.map .removeAttribute ++ u.attributes.reverse.map .setAttribute ++
+  (u.keywords.reverse.map fun kv => [Op.removeKeyword kv.1, Op.setKeyword kv.1 (kv.2 ++ [trueBytes])]).flatten ++
+  (x.ext.transform.tfields.reverse.map fun kv => [Op.removeTField kv.1, Op.setTField kv.1 (trueBytes :: kv.2)]).flatten ++
   (match x.ext.transform.tlang with
     | some tl => [Op.clearTLang, Op.setTLang tl.display]
     | none => []) ++
